@@ -793,6 +793,57 @@ U_TRF = Unit(P + '/transformation round trips', ['Geo_Container.as_cmdline', 'ma
                               [P + '/--geo-rotate/translate/scale round trip/'])])
 
 
+def t_transform_order(eng):
+    """two transformations of the same kind (equal or different sort keys, arbitrary vectors) recorded in the order in which
+    they were applied: Geo_Container.as_cmdline writes them in THAT order (the reader keeps the command-line order of options
+    with equal keys, so any other order re-reads as a different geometry when the operations do not commute)."""
+    name = P + '/transformation order'
+    kind = eng.choose(2)
+    same_key = eng.choose(2) == 1
+    gc = SObj('Geo_Container', label='gc')
+    eng.summaries['Geo_Container.__iter__'] = lambda e, a, k: SList([('conc', [])])
+    k1 = fresh_real('key1')
+    k2 = k1 if same_key else fresh_real('key2')
+    v1 = (fresh_real('x1'), fresh_real('y1'), fresh_real('z1'))
+    v2 = (fresh_real('x2'), fresh_real('y2'), fresh_real('z2'))
+    tname = lambda: AStr([('lit', ('rotate', 'translate')[kind])])
+    gc.fields['transforms'] = SList([('conc', [(k1, tname(), v1, None), (k2, tname(), v2, None)])])
+    gc.fields['scales'] = SList([('conc', [])])
+    text = eng.call_qual('Geo_Container.as_cmdline', [gc])
+    ls = lines_of(text)
+    eng.cover('transform-order-%d-%d' % (kind, same_key))
+    eng.oblige(name + '/one-line-per-transformation', len(ls) == 2, detail=str(len(ls)))
+    if len(ls) != 2:
+        return
+    loop = MS.loop_of(eng, ('args.geo_rotate', 'args.geo_translate')[kind])
+    for j, (kk, vv) in enumerate(((k1, v1), (k2, v2))):
+        nm_, value = option_value(ls[j])
+        gt = SList()
+        env = {ast.unparse(loop.target): value, 'geo': SObj('Geo_Container', label='geo2'), 'geo_transforms': gt,
+               'f_err': AStr([('lit', '<stderr>')])}
+        out = MS.run_stmts(eng, loop.body, env)
+        items = gt.concrete() if gt.is_concrete() else []
+        okc = out.kind == 'normal' and len(items) == 1 and len(items[0]) == 5 and isinstance(items[0][2], NDArr)
+        eng.oblige(name + '/line-%d-is-the-transformation-applied-%s' % (j + 1, ('first', 'second')[j]),
+                   okc and bterm(b_and(eng.values_equal(items[0][0], kk),
+                                       *[eng.values_equal(p_, q_) for p_, q_ in zip(items[0][2].data, vv)])))
+
+
+class _TransformsSorted(ast.NodeTransformer):
+    def visit_For(self, node):
+        self.generic_visit(node)
+        if ast.unparse(node.iter).replace(' ', '') == 'self.transforms':
+            node.iter = ast.parse('reversed (self.transforms)').body[0].value
+        return node
+
+
+U_TRFO = Unit(P + '/transformation order', ['Geo_Container.as_cmdline', 'main'], t_transform_order, SCH,
+              slices={'main': 'bodies of the loops over args.geo_rotate, args.geo_translate'},
+              notes='bounded(shape): two transformations of one kind; keys and vectors symbolic',
+              canaries=[Canary('transformations-written-in-reverse', 'Geo_Container.as_cmdline', _TransformsSorted,
+                               [P + '/transformation order/line-'])])
+
+
 
 # ---------------------------------------------------------------- Mininec.as_cmdline: every part written, once, in order
 def t_model_writer(eng):
@@ -901,4 +952,4 @@ U_MODEL = Unit(P + '/Mininec.as_cmdline', ['Mininec.as_cmdline', 'main'], t_mode
                canaries=[Canary('tagged-distributed-load-dropped', 'Mininec.as_cmdline', _SkipTagged, [P + '/Mininec.as_cmdline/geometry']),
                          Canary('theta-and-phi-lines-swapped', 'Mininec.as_cmdline', _ThetaPhiSwap, [P + '/Mininec.as_cmdline/--'])])
 
-UNITS = [U_WIRE, U_ARC, U_HELIX, U_TAPER, U_LOAD, U_EXC, U_MEDIUM, U_RLC, U_ATTW, U_DIST, U_LAP, U_TRF, U_MODEL]
+UNITS = [U_WIRE, U_ARC, U_HELIX, U_TAPER, U_LOAD, U_EXC, U_MEDIUM, U_RLC, U_ATTW, U_DIST, U_LAP, U_TRF, U_TRFO, U_MODEL]
